@@ -323,7 +323,7 @@ func (g *schemaGenerator) generateDeclaredType(t *schemas.Type, scope nameScope)
 
 		for _, f := range tt.Fields {
 			if f.DefaultValue != nil {
-				if f.Name == additionalProperties {
+				if isAdditionalPropertiesField(f) {
 					g.output.file.Package.AddImport("reflect", "")
 					g.output.file.Package.AddImport("strings", "")
 					g.output.file.Package.AddImport("github.com/go-viper/mapstructure/v2", "")
